@@ -436,7 +436,7 @@ func init() {
 		Shards: shards(14, 16),
 		Meta: func(tier string) rt.Meta {
 			return rt.Meta{Level: "exploration", MinEvals: 20000, MinDistinct: 200,
-				Rule:        "(a) reflection-driven adversarial sweep: the method sets of MemFS, OrefaFS, RoFS and BasePathFS over both, FailFS, a Sub view, MemIdm and of their File handles (regular read/write/append, directory, closed, nil typed handle returned together with an error) are walked with reflect and every parameter is filled from a hostile domain chosen by its Go type (paths: empty, ., .., /, //, unclean, NUL and backslash, 300-byte names, 400-byte paths, glob metacharacters; integers: MinInt64, -1, 0, boundaries up to 1 MiB; open flags; file modes incl. type bits; buffers; times; callbacks), after random preceding calls; plus the exported helpers (Glob, WalkDir, CopyFile, HashFile, PathIterator, FromUnixPath, To/FromBasePath, RndTree...). Each call runs under recover() and under the sequential lock hook, which turns a lock that can never be acquired into a logical 'never returns' verdict and counts lock sites for runaway detection. (a') permission-failure scenarios: a tree built by a non-administrator on MemFS, non-empty directories then protected by the administrator, RemoveAll/MkdirAll/Rename/Remove by the owner failing half-way; the call and Stat/ReadDir/Lstat of every directory afterwards must return (a lock kept on an error path is a logical self-deadlock). (a2) every FailFS function id failing in turn x composite helpers (ReadFile, WriteFile, CopyFile, HashFile, ReadDir, WalkDir, Glob, MkdirAll, temp helpers, RemoveAll) on files of 0..70000 bytes around the 512-byte and 32 KiB buffers: every call returns. (b) deadlock/panic verdicts of the deterministic scheduler over the C06 programs plus dedicated lock-order programs (opposite cross-directory renames, rename against mkdir/remove/open in the involved directories, link against remove, handle operations against path operations on the same node). Signature = type.method | verdict; all non-trivial.",
+				Rule:        "(a) reflection-driven adversarial sweep: the method sets of MemFS, OrefaFS, RoFS and BasePathFS over both, FailFS, a Sub view, MemIdm and of their File handles (regular read/write/append, directory, closed, nil typed handle returned together with an error) are walked with reflect and every parameter is filled from a hostile domain chosen by its Go type (paths: empty, ., .., /, //, unclean, NUL and backslash, 300-byte names, 400-byte paths, glob metacharacters; integers: MinInt64, -1, 0, boundaries up to 1 MiB; open flags; file modes incl. type bits; buffers; times; callbacks), after random preceding calls; plus the exported helpers (Glob, WalkDir, CopyFile, HashFile, PathIterator, FromUnixPath, To/FromBasePath, RndTree...). Each call runs under recover() and under the sequential lock hook, which turns a lock that can never be acquired into a logical 'never returns' verdict and counts lock sites for runaway detection. (a') permission-failure scenarios: a tree built by a non-administrator on MemFS, non-empty directories then protected by the administrator, RemoveAll/MkdirAll/Rename/Remove by the owner failing half-way; the call and Stat/ReadDir/Lstat of every directory afterwards must return (a lock kept on an error path is a logical self-deadlock). (a1b) directory handles read in batches (ReadDir/Readdirnames mixed) while entries are removed and created: every call returns. (a2) every FailFS function id failing in turn x composite helpers (ReadFile, WriteFile, CopyFile, HashFile, ReadDir, WalkDir, Glob, MkdirAll, temp helpers, RemoveAll) on files of 0..70000 bytes around the 512-byte and 32 KiB buffers: every call returns. (b) deadlock/panic verdicts of the deterministic scheduler over the C06 programs plus dedicated lock-order programs (opposite cross-directory renames, rename against mkdir/remove/open in the involved directories, link against remove, handle operations against path operations on the same node). Signature = type.method | verdict; all non-trivial.",
 				Assumptions: []string{"sizes and offsets beyond 1 MiB (allocation bombs on an in-memory file system) and a nil UserReader are outside the domain", "pure-CPU non-termination without lock acquisitions would only be caught by the worker watchdog (inconclusive)"}}
 		},
 		CrashIsViolation: true,
@@ -502,6 +502,13 @@ func init() {
 			for h := 0; h < c.Pick(2000, 40000); h++ {
 				if h%c.NShards == c.Shard {
 					c05Partial(c, h, true)
+				}
+			}
+
+			// ---- directory handles read in batches while their directory shrinks and grows: every batch call returns
+			for h := 0; h < c.Pick(1500, 20000); h++ {
+				if h%c.NShards == c.Shard {
+					c02Dir(c, []string{"MemFS", "OrefaFS"}[h%2], c.Rand(fmt.Sprintf("c07-dir-%d", h)), true)
 				}
 			}
 
